@@ -43,7 +43,7 @@ var rewrites = []rewrite{
 }
 
 // shimPkgs are directories under -shim copied to <repo>/verifshim/<name>.
-var shimPkgs = []string{"vsync", "vatomic", "vnet", "vrand", "vcrand"}
+var shimPkgs = []string{"vsync", "vatomic", "vnet", "vrand", "vcrand", "vyield"}
 
 func die(f string, a ...interface{}) {
 	fmt.Fprintf(os.Stderr, "overlaygen: "+f+"\n", a...)
@@ -85,6 +85,9 @@ func main() {
 				die("%s no longer imports %q: the hook this rewrite provides is gone", rw.file, old)
 			}
 		}
+		if rw.file == "handlers/memcached/batched/conn.go" {
+			injectYields(fset, f)
+		}
 		dst := filepath.Join(*work, strings.ReplaceAll(rw.file, "/", "__"))
 		w, err := os.Create(dst)
 		if err != nil {
@@ -112,6 +115,79 @@ func main() {
 	b, _ := json.MarshalIndent(map[string]interface{}{"Replace": replace}, "", " ")
 	if err := os.WriteFile(*out, b, 0o644); err != nil {
 		die("%v", err)
+	}
+}
+
+// injectYields inserts vyield.Point("<func>:<line>") before every simple statement of conn.go that
+// mentions c.rw or c.conn (the pooled connection and its buffers, which the batcher, the reader and
+// the recovery goroutine share without a lock). It fails loudly if nothing is found.
+func injectYields(fset *token.FileSet, f *ast.File) {
+	mentions := func(n ast.Node) bool {
+		found := false
+		ast.Inspect(n, func(x ast.Node) bool {
+			if sel, ok := x.(*ast.SelectorExpr); ok {
+				if id, ok := sel.X.(*ast.Ident); ok && id.Name == "c" && (sel.Sel.Name == "rw" || sel.Sel.Name == "conn") {
+					found = true
+				}
+			}
+			return !found
+		})
+		return found
+	}
+	count := 0
+	for _, d := range f.Decls {
+		fn, ok := d.(*ast.FuncDecl)
+		if !ok || fn.Body == nil {
+			continue
+		}
+		var walk func(b *ast.BlockStmt)
+		walk = func(b *ast.BlockStmt) {
+			var out []ast.Stmt
+			for _, st := range b.List {
+				simple := false
+				switch t := st.(type) {
+				case *ast.ExprStmt, *ast.AssignStmt:
+					simple = mentions(st)
+				case *ast.IfStmt:
+					if t.Init != nil && mentions(t.Init) || mentions(t.Cond) {
+						simple = true
+					}
+				}
+				if simple {
+					label := fmt.Sprintf("%s:%d", fn.Name.Name, fset.Position(st.Pos()).Line)
+					pos := st.Pos()
+					call := &ast.ExprStmt{X: &ast.CallExpr{
+						Fun:    &ast.SelectorExpr{X: &ast.Ident{Name: "vyield", NamePos: pos}, Sel: &ast.Ident{Name: "Point", NamePos: pos}},
+						Lparen: pos,
+						Args:   []ast.Expr{&ast.BasicLit{Kind: token.STRING, Value: strconv.Quote(label), ValuePos: pos}},
+						Rparen: pos,
+					}}
+					out = append(out, call)
+					count++
+				}
+				out = append(out, st)
+				// descend
+				ast.Inspect(st, func(x ast.Node) bool {
+					if bb, ok := x.(*ast.BlockStmt); ok && bb != b {
+						walk(bb)
+						return false
+					}
+					return true
+				})
+			}
+			b.List = out
+		}
+		walk(fn.Body)
+	}
+	if count < 5 {
+		die("yield injection found only %d statements touching c.rw / c.conn in batched/conn.go", count)
+	}
+	f.Imports = append(f.Imports, &ast.ImportSpec{Path: &ast.BasicLit{Kind: token.STRING, Value: strconv.Quote(modPath + "/verifshim/vyield")}})
+	for _, d := range f.Decls {
+		if gd, ok := d.(*ast.GenDecl); ok && gd.Tok == token.IMPORT {
+			gd.Specs = append(gd.Specs, &ast.ImportSpec{Name: ast.NewIdent("vyield"), Path: &ast.BasicLit{Kind: token.STRING, Value: strconv.Quote(modPath + "/verifshim/vyield")}})
+			break
+		}
 	}
 }
 
